@@ -5,6 +5,11 @@ import json, subprocess
 LOOPNOTE = 'Trusts: A1 token contract (lower-case tag names, exact serialiser/tokeniser round trip), sanitizeAttrs replaced by an arbitrary-result stub, policy tables of at most 2 entries per kind (an upper bound that is general for one step: one step looks up one name per table), z3 5.1 / cvc5 1.0, go/ssa semantics as interpreted.'
 
 CLAIMED = {
+ "C20": dict(
+   text="Relational unit checks on the real code: (1) validURL applied to its own result accepts it unchanged (free raw value, symbolic scheme allowlist/pattern, relative on/off); (2) sanitizeAttrs applied to its own output returns it unchanged, for a/link/img/q with up to 2 attributes among the attributes the sanitiser rewrites (href/src/cite/rel/target/crossorigin), five combinations of the link and crossorigin options, with validURL replaced by the functional summary that (1) establishes; (3) the same for the iframe sandbox filter with a symbolic allowlist; (4) the same under the real UGCPolicy for one free attribute of every vocabulary element except del/ins. SMT decides equality of the two attribute lists on every path; counterexamples are replayed by running the real sanitizeAttrs twice.",
+   note="Trusts: A3 (URL.String() is a fixed point of Parse/String, keeps scheme and host, contains no white space); URL values without embedded white space; policies without custom URL checks and without rewriter (statement's class); lifting from attribute lists to documents uses C01/C06 and the tokenizer/serialiser round trip (A1).",
+   technique="symbolic execution of go/ssa + SMT (relational two-pass harness, lemma-validated summary)", design="5 C20"),
+
  "C04": dict(
    text="The real UGCPolicy() and StrictPolicy() are obtained by executing the constructors (and every helper they call) inside the symbolic interpreter. (1) Their tables and switches are compared with a vocabulary table written from the documentation (elements, forbidden elements, global attributes, the three URL schemes, no patterns/styles/rewriter, unsafe switches off). (2) One iteration of sanitize's token loop from an arbitrary state runs under each concrete policy with token names from the vocabulary, every forbidden element and generic names: every write is escaped text or, for UGC, a tag of the vocabulary; Strict writes no tag, comment or doctype. (3) The real sanitizeAttrs + validURL run under the concrete UGC policy on one free attribute of each vocabulary element: SMT decides that every surviving attribute is in the documented list for that element, is neither style nor on*, that URL attributes have scheme http/https/mailto or none and are emitted normalised, and that links get rel=nofollow.",
    note="Trusts: the vocabulary table as the documented vocabulary; A1-A3; attribute values without embedded white space and elements other than del/ins in part (3) (those cases are covered generically by C02/C03); the converse direction (conforming documents pass unchanged) is C07's generic result, not re-instantiated; z3 5.1 / cvc5 1.0; go/ssa semantics as interpreted.",
@@ -109,7 +114,7 @@ def main():
               "technique": c['technique'],
             })
         else:
-            na.append({"property_id": i, "reason": REASONS.get(i, "check not built yet in this round (work in progress; see DESIGN.md section 5 for the planned encoding)")})
+            na.append({"property_id": i, "reason": REASONS.get(i, "check not built (see DESIGN.md)")})
     m = {
       "version": 1,
       "setup_cmd": "cd /verif/engine && GOFLAGS=-mod=mod GOPROXY=off GOSUMDB=off GOTOOLCHAIN=local go build -o /verif/bin/bmsym ./cmd/bmsym",
